@@ -309,7 +309,8 @@ def judge_atoms(atoms, B, A, img_after=None):
             elif f == "quota":
                 allowed.update(("s_usr_quota_inum", "s_grp_quota_inum", "free_blocks_count"))
                 if on:
-                    need(a, A["s_usr_quota_inum"] and A["s_grp_quota_inum"],
+                    # "Enable usr/grp quota by default" - when the feature is switched on
+                    need(a, has(B, "quota") or (A["s_usr_quota_inum"] and A["s_grp_quota_inum"]),
                          "user/group quota inode not recorded")
                 else:
                     allowed.update(("s_prj_quota_inum", "feature:project", "s_free_inodes_count"))
